@@ -90,3 +90,95 @@ def _flatten(sv):
         if isinstance(x, tuple):
             st.extend(y for y in x if isinstance(y, tuple))
     return out
+
+
+def rule_mark_cas_from_unmarked(ctx, rid, funcs, reason):
+    """a logical-delete mark CAS (new value = expected | 1) starts from a value known to be unmarked, so that exactly one thread wins it:
+    expected is built from a bit-stripped pointer (x.ptr(), a raw pointer, marked_ptr(p, 0)), or the path established bits() == 0 for it"""
+    from sa.pathsim import PathSim, C
+    from sa.cfg import PathBoundExceeded
+    from sa.q import atomic_op, cond_atoms
+    n = 0
+    for F in funcs:
+        try:
+            ps = PathSim(F, bound=8000, entry_values=True).run()
+        except PathBoundExceeded:
+            try:
+                ps = PathSim(F, bound=8000).run()
+            except PathBoundExceeded:
+                continue
+        seen = {}
+        for p in ps:
+            ev = p.events
+            for i, e in enumerate(ev):
+                if e.kind != "call" or not (atomic_op(e) or "").startswith("compare_exchange") or len(e.args) < 2:
+                    continue
+                exp, new = e.args[0], e.args[1]
+                ismark = any(x.kind == "call" and x.val == new and x.q and x.q.endswith("operator|") and x.args and x.args[0] == exp and x.args[1] == C(1) for x in ev[:i])
+                if not ismark and isinstance(new, tuple) and new[:1] == ("obj",) and len(new) > 2 and len(new[2]) == 2 and new[2][1] == C(1):
+                    ismark = True      # marked_ptr(p, 1)
+                if not ismark:
+                    continue
+                if isinstance(exp, tuple) and exp[:1] in (("phi",), ("casexp",)):
+                    verdict = None     # a retry: decided by the back-edge conditions below
+                else:
+                    verdict = _unmarked(exp, ev[:i], p)
+                key = id(e.node)
+                # one provably-unmarked first attempt per site is required; a provably marked-capable one is a violation
+                if verdict is False:
+                    seen[key] = (False, e)
+                elif verdict is True and key not in seen:
+                    seen[key] = (True, e)
+                elif verdict is None and key not in seen:
+                    # retry path: the loop must have re-established bits()==0 (branch on bits of the same variable)
+                    ok = False
+                    for atom, tv, bev in cond_atoms(p):
+                        if ev.index(bev) < i and _is_bits_of(atom, exp, ev) and tv is False:
+                            ok = True
+                    if ok:
+                        seen.setdefault(key, (True, e))
+        for key, (ok, e) in seen.items():
+            n += 1
+            ctx.check(ok, rid, F, "a logical-delete mark CAS starts from a value known to be unmarked", e.node,
+                      detail="if the expected value can already carry the mark, the CAS 'succeeds' without changing anything and a second remover also "
+                      "believes it owns the node (double erase / double retire). " + reason, sig="mark-from-unmarked")
+    return n
+
+
+def _is_bits_of(atom, exp, ev):
+    if isinstance(atom, tuple) and atom[:1] == ("call",) and str(atom[1]).endswith("marked_ptr::bits"):
+        return any(x.kind == "call" and x.val == atom and x.obj == exp for x in ev)
+    return False
+
+
+def _unmarked(exp, before, p):
+    from sa.pathsim import C, NULL
+    from sa.q import cond_atoms
+    if exp == NULL:
+        return True
+    if isinstance(exp, tuple) and exp[:1] == ("obj",) and len(exp) > 2 and str(exp[1]).endswith("marked_ptr"):
+        args = exp[2]
+        if len(args) == 0:
+            return True
+        if len(args) == 2 and args[1] == C(0):
+            return True
+        if len(args) == 1:
+            a = args[0]
+            if isinstance(a, tuple) and a[:1] == ("call",):
+                if str(a[1]).endswith("marked_ptr::ptr"):
+                    return True
+                if str(a[1]).endswith("::load") or str(a[1]).endswith("::protect") or str(a[1]).endswith("::exchange"):
+                    return False
+                return None
+            if isinstance(a, tuple) and a[:1] in (("fld",), ("p",), ("elem",), ("addr",)):
+                return True      # a raw pointer stored in a position / parameter
+            return None
+    # a value with a bits()==0 fact on the path
+    for atom, tv, bev in cond_atoms(p):
+        if bev in before and _is_bits_of(atom, exp, before) and tv is False:
+            return True
+        if bev in before and isinstance(atom, tuple) and atom[:2] == ("op", "==") and any(_is_bits_of(x, exp, before) for x in atom[2:4]) and C(0) in atom[2:4] and tv:
+            return True
+    if isinstance(exp, tuple) and exp[:1] == ("call",) and (str(exp[1]).endswith("::load") or str(exp[1]).endswith("::protect")):
+        return False
+    return None
